@@ -897,3 +897,102 @@ var _ = late(func() {
 	properties["C01"].Rules = append(properties["C01"].Rules,
 		&Rule{ID: "C01.range-wrappers-live", Floor: 6, Clause: "same rule as C02.range-wrappers-live: range iteration yields the entries inside the bounds with their current values", Run: ruleRangeWrappersLive})
 })
+
+// split-left-guards-agree (C03-r9m2): in overfill the left half IS the node being split; its keys/values and its children are
+// rewritten from the amalgam. The extra entry disturbs key slot i when extraIdx <= i and child slot i when extraIdx+1 <= i;
+// over the left half's ranges (keys 0..median-1, children 0..median) both conditions reduce to the SAME test, extraIdx < median.
+// So whatever condition (beyond "is not a leaf") the key rewrite is placed under, the child rewrite is under the same one: a
+// child rewrite skipped in a case in which the keys are rewritten leaves the old child in place and orphans the new subtree.
+func ruleSplitLeftGuardsAgree(c *Ctx, r *R) {
+	fn := bt(c, "overfill")
+	if fn == nil {
+		r.undecided("tree.btree.overfill|missing", token.NoPos, "anchor not found")
+		return
+	}
+	// the left half is the node being split (x, rebound to the parent when the split cascades): any node that is not the
+	// freshly allocated right half
+	isLeft := func(v ssa.Value) bool {
+		_, fresh := resolveVal(v).(*ssa.Alloc)
+		return !fresh
+	}
+	condsOf := func(b *ssa.BasicBlock) []string {
+		var out []string
+		for _, g := range guardsOf(b) {
+			// loop conditions (they involve a loop counter) and leaf tests are not what is compared
+			v, val := g.boolVal()
+			if call, ok := v.(*ssa.Call); ok {
+				if cal := staticCallee(&call.Call); cal != nil && fname(cal) == "leaf" {
+					continue
+				}
+			}
+			s := path(v)
+			if cf, ok := g.asCmp(); ok {
+				if _, isPhi := resolveVal(cf.x).(*ssa.Phi); isPhi {
+					continue
+				}
+				if _, isPhi := resolveVal(cf.y).(*ssa.Phi); isPhi {
+					continue
+				}
+				s = path(cf.x) + " " + cf.op.String() + " " + path(cf.y)
+			} else if !val {
+				s = "!(" + s + ")"
+			}
+			if strings.Contains(s, "leaf") {
+				continue
+			}
+			out = append(out, s)
+		}
+		sort.Strings(out)
+		return out
+	}
+	var keyConds, childConds [][]string
+	for _, d := range deepInstrs(fn, 2) { // (the fill loops may live in a helper called once per half: left.fillFrom(&all, 0, median, leaf))
+		st, ok := d.in.(*ssa.Store)
+		if !ok {
+			continue
+		}
+		b := st.Block()
+		ia, ok := st.Addr.(*ssa.IndexAddr)
+		if !ok {
+			continue
+		}
+		fa, ok := ia.X.(*ssa.FieldAddr)
+		if !ok || !isNamedTypeDeep(fa.X.Type(), treeRel, "node") || !isLeft(argOf(fa.X, d.calls)) || !reaches(b, b) {
+			continue
+		}
+		if _, isPhi := resolveVal(ia.Index).(*ssa.Phi); !isPhi {
+			continue
+		}
+		conds := condsOf(b)
+		for _, site := range d.calls {
+			conds = append(conds, condsOf(site.Block())...)
+		}
+		sort.Strings(conds)
+		switch fieldName(fa.X.Type(), fa.Field) {
+		case "keys":
+			keyConds = append(keyConds, conds)
+		case "children":
+			childConds = append(childConds, conds)
+		}
+	}
+	if len(keyConds) == 0 || len(childConds) == 0 {
+		r.undecided("tree.btree.overfill|left-half-rewrite", fn.Pos(), "the loops that rewrite the left half's keys and children were not found")
+		return
+	}
+	good := true
+	for _, kc := range keyConds {
+		for _, cc := range childConds {
+			if strings.Join(kc, " & ") != strings.Join(cc, " & ") {
+				good = false
+			}
+		}
+	}
+	r.ok(good, "tree.btree.overfill|left-half-guards-agree", fn.Pos(), "the left half's keys are rewritten under {"+strings.Join(keyConds[0], " & ")+"} but its children under {"+strings.Join(childConds[0], " & ")+"}: over the left half both are disturbed by the new entry in exactly the same cases (extraIdx < median), so in a case where only one of them is rewritten the old child stays in place and the freshly split-off subtree is referenced by nobody")
+}
+
+var _ = late(func() {
+	properties["C03"].Rules = append(properties["C03"].Rules,
+		&Rule{ID: "C03.split-left-guards-agree", Floor: 1, Clause: "in overfill the rewrite of the left half's children is placed under the same condition (apart from the leaf test) as the rewrite of its keys and values", Run: ruleSplitLeftGuardsAgree})
+	properties["C01"].Rules = append(properties["C01"].Rules,
+		&Rule{ID: "C01.split-left-guards-agree", Floor: 1, Clause: "same rule as C03.split-left-guards-agree: a child left in place by a split puts keys on two search paths and hides the new leaf from Get", Run: ruleSplitLeftGuardsAgree})
+})
